@@ -1,5 +1,5 @@
 //@ tu: common/common_ctl.c libxcmctl/xcmc.c
-//@ defs: -DUT_STD_ASSERT
+//@ defs: -DUT_STD_ASSERT -DXVU_STRCPY64
 //@ enforce: xcmc_attr_get
 //@ props: C14
 //@ expect: postcondition>=9 canary=8
